@@ -840,6 +840,57 @@ def sc_refusals(rng):
     return b.case()
 
 
+def sc_unknown_types(rng):
+    """every public entry point x a caller's dict of an UNREGISTERED type (object-like and
+    observable-like) x allow_custom off / on, the refused call first, then the accepted one, then again:
+    the caller's dict must be the same after success and after failure"""
+    b = B(rng, "unknown-types")
+    ver = pick_ver(rng)
+    obj = {"type": "x-verif-unk", "id": new_id(rng, "x-verif-unk"), "created": TS[0], "modified": TS[1],
+           "payload": {"k": [1, 2, {"z": []}]}, "labels": ["a"]}
+    sco = {"type": "x-verif-unk-sco", "value": "v", "nested": {"list": [1, [2]]}, "extensions": {"x-verif-ext": {"n": 1}}}
+    if ver == "2.1":
+        obj["spec_version"] = "2.1"
+        if rng.random() < 0.5:
+            sco["id"] = new_id(rng, "x-verif-unk-sco")
+    obj.update(dict(rng.sample(VALUE_POOL, 1)))
+    od = b.mk(share_members(b, obj, 0.3))
+    sd = b.mk(share_members(b, sco, 0.3))
+    vr = b.mk({"0": "x-verif-unk-sco"}) if rng.random() < 0.5 else None
+    calls = []
+    for ac in (False, True):
+        calls += [
+            dict(op="parse_observable", arg=sd, version=rng.choice([None, ver]), allow_custom=ac, **({"valid_refs": vr} if vr is not None else {})),
+            dict(op="parse", arg=od, version=rng.choice([None, ver]), allow_custom=ac),
+            dict(op="parse", arg=sd, version=ver, allow_custom=ac),
+            dict(op="parse_observable", arg=od, version=ver, allow_custom=ac),
+            dict(op="bundle", cls=cls_name(ver, "Bundle"), args=[od], allow_custom=ac),
+        ]
+    rng.shuffle(calls)
+    calls.sort(key=lambda c: c.get("allow_custom", False))          # the refused calls first
+    for c in rng.sample(calls, rng.randint(4, 8)) if rng.random() < 0.5 else calls[:rng.randint(4, 10)]:
+        b.add(**c)
+    # and through the containers that parse their members
+    r = rng.random()
+    if r < 0.3:
+        objs = b.mk({"0": Ref(sd), "1": {"type": "file", "name": "f"}})
+        kw = b.mk({"first_observed": TS[0], "last_observed": TS[1], "number_observed": 1, "objects": Ref(objs)})
+        b.add(op="construct", cls=cls_name(ver, "ObservedData"), kw=kw)
+        b.add(op="construct", cls=cls_name(ver, "ObservedData"), kw=kw, allow_custom=True)
+    elif r < 0.6:
+        st = b.add(op="store_new", kind="memory", arg=None)
+        b.add(op="store_add", store=st, arg=rng.choice([od, sd]))
+        b.add(op="store_add", store=st, arg=b.mk([Ref(od)]))
+    elif r < 0.8:
+        b.add(op="new_version", arg=od, kw=b.mk({"labels": Ref(b.mk(["b"]))}))
+        b.add(op="revoke", arg=od)
+    else:
+        b.add(op="deepcopy", arg=rng.choice([od, sd]))
+    b.add(op="parse_observable", arg=sd, version=ver, allow_custom=False)          # the same question again
+    b.add(op="parse_observable", arg=sd, version=ver, allow_custom=True)
+    return b.case()
+
+
 SIZES = [0, 1, 2, 9, 10, 11, 63, 64, 65, 100, 101, 255, 256]
 
 
@@ -1096,9 +1147,10 @@ def sc_custom_types(rng):
 SNAPSHOT_ONLY = [(sc_api, 3), (sc_stores, 2)]
 MODELLED.append((sc_custom_types, 3))
 MODELLED.append((sc_sizes, 1))
+MODELLED.append((sc_unknown_types, 3))
 
 
-KIND_OF = {sc_sizes: "sizes", sc_custom_types: "custom-types", sc_api_markings: "api-markings", sc_extensions: "extensions", sc_observed: "observed-data", sc_sdo: "sdo", sc_markings: "markings",
+KIND_OF = {sc_unknown_types: "unknown-types", sc_sizes: "sizes", sc_custom_types: "custom-types", sc_api_markings: "api-markings", sc_extensions: "extensions", sc_observed: "observed-data", sc_sdo: "sdo", sc_markings: "markings",
            sc_bundle_store: "bundle-store", sc_store_get: "store-get", sc_factory: "factory", sc_refusals: "refusals",
            sc_api: "api", sc_stores: "stores"}
 
